@@ -104,7 +104,11 @@ def _triples(tier):
             # by set
             out.append(("t:set:%s%d:%d:%d" % (kind[0], kind[1], old, new),
                         base + ["i set 0 %s" % nd, "i cmp 0 %s" % nd, "i cmp 0 %s" % _data(new, 0x63), "i cmp 0 %s" % _data(max(0, new - 1), 0x62)]
-                        + ([] if long_ else ["i set 0 %s -1" % nd]) + ["i free 0"]))
+                        + ([] if long_ else ["i set 0 %s -1" % nd])
+                        # the same name as a slice of a longer buffer (the byte behind it is not a terminator)
+                        + (["i cmp 0 %s2e7375 %d" % (nd if nd != "-" else "", new), "i set 0 %s2e7375 %d" % (nd if nd != "-" else "", new),
+                            "i cmp 0 %s" % nd] if new <= 24 else [])
+                        + ["i free 0"]))
             # zero-pointer set
             out.append(("t:null:%s%d:%d:%d" % (kind[0], kind[1], old, new),
                         base + ["i set 0 null %d" % new, "i cmp 0 null %d" % max(0, new - 1), "i cmp 0 %s" % _data(min(new, 30), 0), "i free 0"]))
@@ -158,6 +162,8 @@ def _self_and_nodes(tier):
             _, hh, n = d.split(":")
             return hh * int(n)
         return d
+    setup = list(lines)
+    slice_lines = list(setup)
     for start in range(9):
         for pos in (1, 2, 3, 0, -1, -2):
             for pr in probes:
@@ -165,12 +171,14 @@ def _self_and_nodes(tier):
                     continue
                 # the name in a block of exactly its size (nothing readable behind it) ...
                 lines.append("i locate %d %d %s" % (start, pos, pr))
-                # ... and as a slice of a longer buffer ("name.sub/xy"): the byte behind it is not a terminator
+                # ... and (own script) as a slice of a longer buffer ("name.sub/xy"): the byte behind it is no terminator
                 hx = _hexof(pr)
                 if len(hx) <= 400:
-                    lines.append("i locate %d %d %s2e7375622f7879 %d" % (start, pos, hx, len(hx) // 2))
+                    slice_lines.append("i locate %d %d %s2e7375622f7879 %d" % (start, pos, hx, len(hx) // 2))
         for pr in probes + ["null"]:
             lines.append("i next %d %s" % (start, pr))
+    slice_lines += ["i free %d" % k for k in range(9)]
+    out.append(("nodes:slice", slice_lines))
     lines += ["i set 3 null 100", "i locate 0 1 rep:00:99", "i locate 0 1 rep:00:100", "i set 1 null 1", "i next 0 -", "i locate 0 1 -", "i locate 0 1 00",
               "i set 1 -", "i next 0 -", "i locate 0 1 -", "i free 4", "i locate 0 2 rep:61:100", "i locate 8 -1 %s" % _data(3),
               "i locate 0 1 616263 2", "i locate 9 1 61", "i locate 0 21 61", "i locate 0 -0 61", "i locate 0 1 null", "i next 0", "i new 16", "i locate 9 1 61"]
